@@ -3,6 +3,7 @@ import Anysystem.Proofs.SimQueueThms
 import Anysystem.Proofs.SimLogThms
 import Anysystem.Proofs.SimTraceInv
 import Anysystem.Proofs.SimTimeOrder
+import Anysystem.Proofs.SimLogTimes
 /-!
 # C17 — Logs, event logs, counters and outboxes tell one consistent story
 
@@ -45,5 +46,20 @@ namespace Anysystem
 #check @Sim.TraceTimeInv.sendLocal
 #check @Sim.TraceTimeInv.crashNode
 #check @Sim.TraceTimeInv.readLocal
+
+/- per-process event logs (`Proofs/SimLogTimes.lean`): `LogTimeInv` — the times of every process's event log are non-decreasing
+   and never ahead of the clock — holds for a fresh process and is kept by every API call of the model; every entry a step
+   appends to any event log carries the popped event's time, every entry `send_local_message` appends carries the current
+   clock (`step_log_times`, `sendLocal_log_times`); no entry carries the skewed handler clock. -/
+#check @Sim.LogTimeInv.step
+#check @Sim.LogTimeInv.steps
+#check @Sim.LogTimeInv.sendLocal
+#check @Sim.LogTimeInv.crashNode
+#check @Sim.LogTimeInv.recoverNode
+#check @Sim.LogTimeInv.addProcess
+#check @Sim.addProcess_fresh_log_times
+#check @Sim.step_log_times
+#check @Sim.sendLocal_log_times
+#check @Sim.log_times_sorted
 
 end Anysystem
